@@ -183,6 +183,47 @@ CHECKS['C11'] = dict(
     note=TB + E3TB + '; the scan summary of memchr/One::find used inside the scalar prefilters is the statement C01 proves',
     design_ref='5/C11')
 
+SUBTECH = 'abstract interpretation (E2) of monomorphic MIR with the byte-equality ghost (eqg.py) and the relation/spec tables (mm.py): symbolic haystack and needle, exact linear store, Houdini loop invariants, assume-guarantee between public functions; entailment obligations per return path / back edge; 2 (quick) / 10 (thorough) configurations'
+SUBNOTE = TB + 'the E2 interpreter, eqg.py, mm.py; completeness of Two-Way (critical factorisation theorem) and of the Rabin-Karp rolling hash are NOT decided and not assumed by any obligation'
+CHECKS['C03'] = dict(
+    category='other', technique=SUBTECH,
+    text="Necessary conditions, not the whole property: the check decides (for all needles/haystacks at once) the strategy table of "
+         "the meta searcher (empty iff len 0, one byte iff len 1, memcmp-confirming vector searcher only for 2..=32, else Two-Way), "
+         "the Two-Way construction relation (critical_pos < len, 1 <= period/shift <= len, 2*shift >= len), Some(i) => i + len <= "
+         "haystack.len() at every level, that every internal call passes the construction needle and respects min_haystack_len, "
+         "that Some(i) is returned only after needle[..] was compared equal with haystack[i..i+len] of the CALLER's haystack "
+         "(Rabin-Karp, packed pair, large-period Two-Way, the meta searcher over them; a sub-search must be rebased), the "
+         "small-period shift-memory discipline (shift == 0 or last move == +period and shift + period <= len), the empty needle => "
+         "Some(0), and the union/fn-pointer pairing. Why 'other': that Two-Way never skips an occurrence is the critical "
+         "factorisation theorem and that the rolling hash tracks the window is arithmetic mod 2^32 -- neither is in reach of a "
+         "sound static argument here; a runtime oracle would be a different technique.",
+    note=SUBNOTE, design_ref='5/C03')
+CHECKS['C04'] = dict(
+    category='other', technique=SUBTECH,
+    text="Mirror image of C03 for memmem::rfind / FinderRev::rfind: SearcherRev strategy table, reverse Two-Way relation "
+         "(1 <= critical_pos <= len, ...), index range, verified offset for reverse Rabin-Karp / large-period reverse Two-Way / the "
+         "meta searcher, reverse shift-memory discipline (shift == len, or last move == -period and shift >= period), empty needle "
+         "=> Some(haystack.len()). Completeness of reverse Two-Way / rolling hash not decided.",
+    note=SUBNOTE, design_ref='5/C04')
+CHECKS['C08'] = dict(
+    category='other', technique=SUBTECH + '; plus a documented pen-and-paper induction over call histories',
+    text="Decides the per-call transfer obligations of FindIter/FindRevIter for an arbitrary iterator value per searcher kind: "
+         "next() leaves pos unchanged on None, yields i with pos <= i, i + len <= haystack.len() and stores i + max(len, 1); "
+         "the reverse iterator stores Some(i), or pos.checked_sub(1) after an empty match at pos (offset 0 is yielded once, then "
+         "None forever); size_hint is (0, Some(0)) when exhausted, exactly len - pos + 1 for the empty needle and "
+         "(0, floor((len - pos)/needle.len())) otherwise; find_iter/rfind_iter start at 0 / Some(len) on the given haystack and "
+         "into_owned keeps haystack, position and needle length. The greedy-sequence statement follows by induction from these "
+         "facts AND from C03/C04 for the underlying search, which are themselves only partially decided -- hence 'other'.",
+    note=SUBNOTE + '; the induction over histories is by hand', design_ref='5/C08')
+CHECKS['C12'] = dict(
+    category='other', technique=SUBTECH,
+    text="Per building block: Two-Way fwd/rev construction relation, index range, verified offset (large period), shift-memory "
+         "discipline (small period); Rabin-Karp fwd/rev index range and verified offset (a hash hit alone never answers); "
+         "Shift-Or new returns None exactly when len > 15 and remembers the length, index range; packed-pair new/with_pair store "
+         "the pair and needle bytes given, find's documented panic is exact, index range, verified offset. NOT decided: that "
+         "Two-Way / the rolling hash / the Shift-Or automaton never miss an occurrence.",
+    note=SUBNOTE, design_ref='5/C12')
+
 NOT_YET = "check not built yet (build in progress, see DESIGN.md section 8 build order)"
 NA = {}
 
